@@ -26,6 +26,9 @@ type c06Case struct {
 	ExtAllow bool   `json:"ext_allow,omitempty"` // an extension answers "allow" to every MAIL and RCPT: that overrides the domain rules, never the size limit
 	OneLine  bool   `json:"one_line,omitempty"`  // the body is one unfolded line (no line-length limit applies to DATA)
 	Discard  bool   `json:"discard,omitempty"`   // the recipient's domain is not stored (accepted, then dropped): the limit applies all the same
+	// Blank: "lead" - the data begins with empty lines that make up all but the last 5 bytes of its
+	// size; "trail" - it ends with them.  Empty lines are data like any other.
+	Blank string `json:"blank,omitempty"`
 }
 
 // c06Body builds data whose LF-normalised form has exactly n bytes (lines of ≤50 chars).
@@ -69,6 +72,14 @@ func c06Exec(c *fw.Ctx, cas c06Case) (nontrivial bool) {
 	body := c06Body(cas.Size)
 	if cas.OneLine && cas.Size >= 2 {
 		body = strings.Repeat("x", cas.Size-1) + "\r\n"
+	}
+	if cas.Blank != "" && cas.Size >= 7 {
+		text, blanks := "xxxx\r\n", strings.Repeat("\r\n", cas.Size-5)
+		if cas.Blank == "lead" {
+			body = blanks + text
+		} else {
+			body = text + blanks
+		}
 	}
 	sLF := len(sys.NormLE(body))
 	if body != "" {
@@ -207,11 +218,11 @@ func c06Run(c *fw.Ctx) {
 					if !c.Mine(n) {
 						continue
 					}
-					for _, variant := range []string{"", "discard", "ext-allow", "one-line"} {
+					for _, variant := range []string{"", "discard", "ext-allow", "one-line", "blank-lead", "blank-trail"} {
 						if variant != "" && be == "file" {
 							continue // these variants do not depend on the back-end
 						}
-						cas := c06Case{Limit: L, Size: sz, Declare: decl, Backend: be, Discard: variant == "discard", ExtAllow: variant == "ext-allow", OneLine: variant == "one-line"}
+						cas := c06Case{Limit: L, Size: sz, Declare: decl, Backend: be, Discard: variant == "discard", ExtAllow: variant == "ext-allow", OneLine: variant == "one-line", Blank: strings.TrimPrefix(map[bool]string{true: variant}[strings.HasPrefix(variant, "blank-")], "blank-")}
 						if !c.Begin(func() any { return cas }) {
 							continue
 						}
